@@ -68,7 +68,9 @@ func checkImportsExplicit(c *Ctx, rule string, gen *packages.Package) {
 		c.Unk(rule, "package names", "", fmt.Sprintf("cannot list the packages of %v: %v", pats, err))
 		return
 	}
-	universe := map[string]bool{}
+	// the packages a generation writes next to each other (their default names): a template that names one
+	// of them literally must be handed its import too
+	universe := map[string]bool{"cli": true, "client": true, "models": true, "operations": true, "restapi": true}
 	for _, n := range nameOf {
 		if n != "main" {
 			universe[n] = true
